@@ -535,6 +535,12 @@ def main(argv=None):
         with multiprocessing.get_context("fork").Pool(max(1, min(16, (os.cpu_count() or 2) - 1))) as pool:
             for S in pool.starmap(process, [(c, have_driver) for c in chunks]):
                 absorb(ck, S)
+    ck.coverage["ties"] = {
+        "_split_event": "A (differential, stream split + inside union_no_overlap) + B (bridge_split_event)",
+        "union_no_overlap loop body": "A (differential) + B (bridge_uno_step)",
+        "union_no_overlap loop skeleton (deep copies, indices, while test, tail appends)":
+            "A (differential) + syntactic skeleton match in translate/k_union_no_overlap.py",
+    }
     ck.assumptions += [
         "theorems assume: both lists time-sorted and internally non-overlapping (consecutive end <= next start), "
         "durations >= 0, list-one starts and ends millisecond-aligned (Event.timestamp floors to the ms)",
